@@ -151,16 +151,22 @@ var layouts = map[string]layoutDef{
 	"sub-per":  {"{{.InterfaceDir}}/mocks", "{{.InterfaceName}}.go", "mocks"},
 	"tree":     {"mocks/{{.SrcPackagePath}}", "mocks.go", "mocks_{{.SrcPackageName}}"},
 	"shared":   {"internal/allmocks", "{{.SrcPackageName}}_mocks.go", "allmocks"},
+	// .StructName piped through a function that does not commute with resolving the (templated)
+	// structname: deterministic only if every templated parameter sees the same .StructName
+	"sn-dir": {"{{.InterfaceDir}}/mocks/{{ .StructName | firstLower }}", "mock.go", "mocks"},
 }
-var layoutIDs = []string{"test-one", "test-per", "exttest", "src-one", "src-per", "sub-one", "sub-per", "tree", "shared"}
+var layoutIDs = []string{"test-one", "test-per", "exttest", "src-one", "src-per", "sub-one", "sub-per", "tree", "shared", "sn-dir"}
 
 // filename-only overrides: always a per-interface test file, valid in every directory and
 // under every pkgname the layouts above produce
 var fileOnly = map[string]string{
 	"extra":  "extra_{{.InterfaceName}}_test.go",
 	"second": "second_{{.InterfaceName | lower}}_test.go",
+	// see layout sn-dir
+	"sn-trim":  `{{ .StructName | trimPrefix "Mock" }}_mock_test.go`,
+	"sn-lower": "{{ .StructName | firstLower }}_gen_test.go",
 }
-var fileOnlyIDs = []string{"extra", "second"}
+var fileOnlyIDs = []string{"extra", "second", "sn-trim", "sn-lower"}
 
 var structPatterns = map[string]string{
 	"mock":   "{{.Mock}}{{.InterfaceName}}",
@@ -269,12 +275,15 @@ func gen(t *rapid.T) Case {
 	wantExplicitUnder := chance(t, "want-explicit-under", 3)
 	wantMulti := chance(t, "want-multi-configs", 4)
 	wantRow20 := chance(t, "want-shared-remote-template", 1)
+	// >=9 entries under packages: (maps spread over buckets, sort.Slice beyond its insertion-sort range of
+	// short slices) with three or more recursive packages
+	wantBig := chance(t, "want-big", 2)
 	row20Known := vh.Known(keyRow20) // repaired in /repo 732d8a4; the switch stays for the findings protocol
 
 	// ---- sources
 	present := map[string]bool{}
 	for _, u := range universe {
-		if chance(t, "has:"+u.dir, u.weight) {
+		if chance(t, "has:"+u.dir, u.weight) || wantBig {
 			present[u.dir] = true
 		}
 	}
@@ -288,7 +297,7 @@ func gen(t *rapid.T) Case {
 	for _, u := range universe {
 		if present[u.dir] {
 			n++
-			if n > 8 {
+			if n > 10 {
 				delete(present, u.dir)
 			}
 		}
@@ -356,7 +365,11 @@ func gen(t *rapid.T) Case {
 		forced := (wantNested && (s.Dir == "alpha" || s.Dir == "alpha/beta")) ||
 			((wantExplicitUnder || wantRow20) && (s.Dir == "alpha" || s.Dir == "alpha/beta"))
 		skip := wantNested && s.Dir == "alpha/beta/gamma" && chance(t, "gamma-discovered", 8)
-		if skip || (!forced && !chance(t, "configured:"+s.Dir, 6)) {
+		pConf, pRec := 6, 5
+		if wantBig {
+			pConf, pRec = 9, 7
+		}
+		if skip || (!forced && !chance(t, "configured:"+s.Dir, pConf)) {
 			continue
 		}
 		pc := PkgCfg{Dir: s.Dir}
@@ -366,7 +379,7 @@ func gen(t *rapid.T) Case {
 			lv.Recursive = "true"
 		case wantExplicitUnder && s.Dir == "alpha":
 			lv.Recursive = "true"
-		case hasBelow(s.Dir) && chance(t, "recursive", 5):
+		case hasBelow(s.Dir) && chance(t, "recursive", pRec):
 			lv.Recursive = "true"
 		case !hasBelow(s.Dir) && chance(t, "recursive-leaf", 1):
 			lv.Recursive = "true"
@@ -391,6 +404,11 @@ func gen(t *rapid.T) Case {
 
 	// ---- root level
 	c.Root.Layout = pick(t, "root.layout", layoutIDs, 4)
+	if c.Root.Layout == "" && chance(t, "root.fileonly?", 2) {
+		c.Root.FileOnly = pick(t, "root.fileonly", fileOnlyIDs, 0)
+	}
+	// one schema that several probe packages share (the require flag and the data then vary per package)
+	commonSchema := pick(t, "common-schema", []string{"alpha", "alpha", "loose"}, 2)
 	c.Root.Struct = pick(t, "root.struct", structIDs, 8)
 	c.Root.TD = genTD(t, "root.td", tdPool(effTemplate(c.Root, nil), uniform), 2)
 
@@ -406,6 +424,8 @@ func gen(t *rapid.T) Case {
 		recursive := lv.Recursive == "true" || c.Root.Recursive == "true"
 		if chance(t, "pkg.layout?", 4) {
 			lv.Layout = pick(t, "pkg.layout", layoutIDs, 0)
+		} else if chance(t, "pkg.fileonly?", 2) {
+			lv.FileOnly = pick(t, "pkg.fileonly", fileOnlyIDs, 0)
 		}
 		if chance(t, "pkg.struct?", 3) {
 			lv.Struct = pick(t, "pkg.struct", structIDs, 0)
@@ -423,7 +443,10 @@ func gen(t *rapid.T) Case {
 			// per-package schema settings: the known trigger when >=2 probe packages differ
 			if chance(t, "pkg.schema?", 5) || wantRow20 {
 				sch := pick(t, "pkg.schema", schemaIDs, 1)
-				req := pick(t, "pkg.req-schema", []string{"false", "true"}, 3)
+				if commonSchema != "" && chance(t, "use-common-schema", 6) {
+					sch = commonSchema
+				}
+				req := pick(t, "pkg.req-schema", []string{"false", "false", "true"}, 3)
 				if row20Known && (sch != "" || req != "") {
 					vh.Excluded(keyRow20)
 					sch, req = "", ""
@@ -437,6 +460,11 @@ func gen(t *rapid.T) Case {
 					lv.TD = setKV(delKV(lv.TD, "beta"), KV{"alpha", `"a-value"`})
 				case "beta":
 					lv.TD = setKV(delKV(lv.TD, "alpha"), KV{"beta", "7"})
+				}
+				// opted out of validation: data the strict schema rejects is then fine (not a recursive
+				// package, so the data stays in this package; the strict schemas are never on recursive ones)
+				if (sch == "alpha" || sch == "beta") && req == "false" && chance(t, "unvalidated-bad-data", 7) {
+					lv.TD = setKV(delKV(delKV(lv.TD, "alpha"), "beta"), KV{"rejected", `"by the strict schemas"`})
 				}
 			}
 		}
@@ -628,7 +656,12 @@ func renderSrc(p SrcPkg, out map[string]string) {
 	}
 }
 
-func q(s string) string { return `"` + s + `"` }
+func q(s string) string {
+	if strings.Contains(s, `"`) {
+		return "'" + s + "'" // YAML single-quoted scalar (no single quotes occur in the pools)
+	}
+	return `"` + s + `"`
+}
 
 func renderLevel(b *strings.Builder, ind string, l Level, first string) {
 	// first = prefix of the first emitted line (for list items "- "), afterwards ind
@@ -750,7 +783,7 @@ func render(c Case) map[string]string {
 
 type shape struct {
 	nestedRecursive, explicitUnderRecursive, anyRecursive, multiConfigs, sameNameImports bool
-	row20, reparse, nullEntry, discovered                                                bool
+	row20, reqDiffers, structPiped, reparse, nullEntry, discovered                       bool
 	classes                                                                              []string
 }
 
@@ -827,6 +860,22 @@ func analyse(c Case) shape {
 		seen[k] = true
 	}
 	s.row20 = len(seen) >= 2
+	// same template and same schema URL, only the require flag differs
+	schemas := map[string]map[string]bool{}
+	for k := range seen {
+		if schemas[k.sch] == nil {
+			schemas[k.sch] = map[string]bool{}
+		}
+		schemas[k.sch][k.req] = true
+	}
+	for _, reqs := range schemas {
+		if len(reqs) >= 2 {
+			s.reqDiffers = true
+		}
+	}
+	if s.reqDiffers && len(schemas) == 1 {
+		s.row20 = false
+	}
 	// layouts in use anywhere
 	lay := map[string]bool{}
 	note := func(l *Level) {
@@ -838,6 +887,9 @@ func analyse(c Case) shape {
 		}
 		if l.FileOnly != "" {
 			lay["fileonly"] = true
+			if strings.HasPrefix(l.FileOnly, "sn-") {
+				lay["sn-file"] = true
+			}
 		}
 	}
 	note(&c.Root)
@@ -853,6 +905,8 @@ func analyse(c Case) shape {
 			}
 		}
 	}
+	s.structPiped = lay["sn-dir"] || lay["sn-file"]
+	delete(lay, "sn-file")
 	for _, l := range []string{"src-one", "src-per"} {
 		if lay[l] {
 			s.reparse = true
@@ -890,6 +944,10 @@ func analyse(c Case) shape {
 	flag(s.sameNameImports, "hazard=same-name-imports")
 	flag(s.reparse, "hazard=rerun-reparses-own-output")
 	flag(s.row20, "hazard=shared-remote-template+schema-differs")
+	flag(s.reqDiffers, "hazard=shared-remote-template+require-differs")
+	flag(s.structPiped, "hazard=structname-piped-into-path")
+	flag(len(c.Pkgs) >= 9, "package-entries>=9")
+	flag(len(rec) >= 3, "recursive-packages>=3")
 	flag(s.nullEntry, "null-package-entry")
 	flag(c.Root.Recursive == "true", "root-recursive")
 	tdLevels := 0
@@ -927,6 +985,10 @@ func (s shape) hazard() string {
 	switch {
 	case s.row20:
 		return "shared-remote-template+schema-differs"
+	case s.reqDiffers:
+		return "shared-remote-template+require-differs"
+	case s.structPiped:
+		return "structname-piped-into-path"
 	case s.nestedRecursive:
 		return "nested-recursive"
 	case s.explicitUnderRecursive:
